@@ -98,6 +98,11 @@ impl AsyncWrite for SimIo {
         world::with(|w| {
             if w.pipe.client_shutdown || w.pipe.server_closed {
                 w.stats.bump("io.write_after_close");
+                if !w.pipe.write_after_close_noted {
+                    w.pipe.write_after_close_noted = true;
+                    let at = w.pipe.c2s.len();
+                    w.ev(EvKind::Fault { what: "write_after_close".into(), at });
+                }
                 return Poll::Ready(Err(io_err(IoKind::BrokenPipe)));
             }
             let len = w.pipe.c2s.len();
@@ -115,6 +120,23 @@ impl AsyncWrite for SimIo {
             if let Some(at) = w.pipe.server_close_after {
                 if len < at {
                     room = room.min(at - len);
+                }
+            }
+            if let Some((off, ms)) = w.knobs.write_stall {
+                if len >= off {
+                    let now = w.now_ms();
+                    if w.pipe.stall_until.is_none() {
+                        w.pipe.stall_until = Some(now + ms);
+                        w.stats.bump("io.write_stall");
+                        w.ev(EvKind::Fault { what: "write_stall".into(), at: ms as usize });
+                    }
+                    if now < w.pipe.stall_until.unwrap() {
+                        w.pipe.w_waker = Some(cx.waker().clone());
+                        if let Some(wk) = w.pipe.net_waker.take() {
+                            wk.wake();
+                        }
+                        return Poll::Pending;
+                    }
                 }
             }
             if w.knobs.write_pending_pm > 0 && w.sched.permille(w.knobs.write_pending_pm) {
@@ -313,7 +335,18 @@ impl Future for Network {
                     }
                 }
                 w.pipe.net_waker = Some(cx.waker().clone());
-                w.pipe.net_queue.front().map(|&(t, _)| (t, w.start))
+                // end of a write stall
+                let mut next = w.pipe.net_queue.front().map(|&(t, _)| t);
+                if let Some(until) = w.pipe.stall_until {
+                    if now >= until {
+                        if let Some(wk) = w.pipe.w_waker.take() {
+                            wk.wake();
+                        }
+                    } else if w.pipe.w_waker.is_some() {
+                        next = Some(next.map_or(until, |t| t.min(until)));
+                    }
+                }
+                next.map(|t| (t, w.start))
             });
             match next {
                 None => return Poll::Pending,
